@@ -30,7 +30,14 @@ CONC = {"rounds": 3, "unwind": 8, "unwind_mode": "assume", "feasibility": False,
         "loop_bounds": {M("setState"): 3, M("compareAndSwapState"): 3}}
 G = lambda n: "(*" + P + "grainPID)." + n
 SUB_GRAIN = {"(*" + P + "dispatcher).schedule": P + "vC17_gSchedule", "(*" + P + "worker).reschedule": P + "vC17_gReschedule", G("recovery"): P + "vC17_gRecovery"}
+SUB_LATE = dict(SUB_GRAIN)
+SUB_LATE.update({A("localSend"): P + "vC17_localSend", G("activate"): P + "vC17_gActivate", "(*" + P + "GrainIdentity).Validate": P + "vC17_validateID"})
 MO = {"replay": "model-only"}
+# order assertions of vC17_sequence that sit behind "this step ran": not reached in the cases where an earlier guardian failed
+SEQ_ORDER_ASSERTS = ("the user guardian is stopped before the dead-letter actor", "the user guardian is stopped before the death watch",
+                     "grains are deactivated after the user actors were stopped",
+                     "the system guardian is stopped after the user guardian, the dead-letter actor, the death watch, the grains and NoSender",
+                     "the root guardian is stopped last of the guardians", "cluster / remoting go down after the last guardian")
 CHECK = {
     "id": "C17",
     "packages": ["./actor"],
@@ -41,12 +48,21 @@ CHECK = {
         dict(MO, fn=P + "vC17_gate", cases={"kind": list(range(11))}, opts={"substitute": SUB_GATE, "equalfold_ascii": True},
              cover_optional=("rejected", "control-accepted", "system-message-passes-gate")),
         dict(MO, fn=P + "vC17_afterStop", opts={"substitute": SUB_AFTER, "map_range": "per_entry", "map_dedup": True, "select_precise": True}),
+        dict(MO, fn=P + "vC17_systemActor", opts={"substitute": SUB_AFTER, "map_range": "per_entry", "map_dedup": True}),
         dict(MO, fn=P + "vC17_sequence", cases={"failingStep": SEQ_FAIL}, opts={"substitute": SUB_SEQ},
-             cover_optional=("clean", "non-guardian-step-failed", "guardian-failed", "user-guardian-failed")),
-        dict(MO, fn=P + "vC17_treeTwoStops", cases={"size": [2]}, opts=dict(CONC, substitute=SUB_TREE_C)),
-        dict(MO, fn=P + "vC17_treeChildStop", cases={"size": [2]}, opts=dict(CONC, substitute=SUB_TREE_C)),
-        dict(MO, fn=P + "vC17_treeFailing", cases={"size": [3]}, opts={"substitute": SUB_TREE, "map_range": "per_entry", "map_dedup": True, "recursion": 5}),
-        dict(MO, fn=P + "vC17_grains", cases={"grains": [1], "traffic": [0, 1]}, opts={"rounds": 3, "unwind": 6, "unwind_mode": "assume", "feasibility": False, "substitute": SUB_GRAIN}),
+             cover_optional=("clean", "non-guardian-step-failed", "guardian-failed", "user-guardian-failed"),
+             may_be_unreachable=SEQ_ORDER_ASSERTS),
+        dict(MO, fn=P + "vC17_treeTwoStops", cases_quick={"size": [2]}, cases_thorough={"size": [2, 3, 4]}, opts=dict(CONC, substitute=SUB_TREE_C), opts_thorough={"rounds": 4}),
+        dict(MO, fn=P + "vC17_treeChildStop", cases_quick={"size": [2]}, cases_thorough={"size": [2, 3, 4]}, opts=dict(CONC, substitute=SUB_TREE_C), opts_thorough={"rounds": 4}),
+        dict(MO, fn=P + "vC17_treeFailing", cases_quick={"size": [3]}, cases_thorough={"size": [2, 3, 4]},
+             opts={"substitute": SUB_TREE, "map_range": "per_entry", "map_dedup": True, "recursion": 5}, cover_optional=("descendant-failed",)),
+        dict(MO, fn=P + "vC17_grains", cases_quick={"grains": [1], "traffic": [0, 1]}, cases_thorough={"grains": [1, 2], "traffic": [0, 1, 2]},
+             opts={"rounds": 3, "unwind": 6, "unwind_mode": "assume", "feasibility": False, "substitute": SUB_GRAIN},
+             cover_optional=("teardown-with-passivation-pill", "teardown-with-message-handled"),
+             may_be_unreachable=("OnReceive of a grain never runs while its OnDeactivate is in progress",)),
+        dict(MO, fn=P + "vC17_grainLateSend", cases={"active": [0, 1]},
+             opts={"rounds": 3, "unwind": 6, "unwind_mode": "assume", "feasibility": False, "substitute": SUB_LATE},
+             cover_optional=("send-refused", "send-handled")),
     ],
     "opts": {"unwind": 40},
     # only functions that are substituted in every entry that reaches them (a stopped function has no body in the IR)
@@ -54,7 +70,43 @@ CHECK = {
              A("localActors"), "(*" + P + "passivationManager).Stop", "(*" + P + "scheduler).Stop", "(*" + P + "dispatcher).signalStop", "(*" + P + "dispatcher).schedule",
              M("unregisterMetrics"), M("submitSupervision")],
     "timeout_ms": {"quick": 400000, "thorough": 1800000},
-    "explanation": "TODO",
-    "bounds": {},
-    "assumptions": [],
+    "explanation": (
+        "Kernels of ActorSystem.Stop on the real code. "
+        "vC17_gate: real PID.doReceive, isSystemMessage/isControlMessage, dispatchState, UnboundedMailbox, handleReceivedError(WithMessage), toDeadletter for each of the 11 message types "
+        "(1 user + the 10 system/control types; case split) x system stopping or not x PID with/without actor system x scheduling pre-state idle/scheduled/processing (symbolic): "
+        "stopping + user message => not enqueued, not scheduled, exactly one SendDeadletter to the dead-letter actor carrying message, sender, receiver and ErrSystemShuttingDown; otherwise "
+        "enqueued once in the right mailbox (reference tables written in the harness) and scheduled once iff idle. Substituted: PID.Tell -> recorder, dispatcher.schedule -> counter. "
+        "vC17_systemActor: real PID.Shutdown of an actor with a reserved (system) name: refused with ErrShutdownForbidden unless the system is stopping. "
+        "vC17_afterStop: real PID.Shutdown/doStop/freeWatchees/freeChildren/freeWatchers/reset on the real tree with 0..2 messages accepted before the stop, then real Tell, Ask, runTurn, "
+        "dispatchOne, handleReceived and a second Shutdown: Tell/Ask fail with ErrDead and enqueue/schedule nothing, the turn for the earlier messages never reaches Receive, PostStop ran exactly once. "
+        "vC17_sequence: real actorSystem.shutdown (+ internal/chain) with every step replaced by a recorder (PID.Shutdown of the 9 guardians/system actors, poisonAllGrains, passivationManager.Stop, "
+        "scheduler.Stop, runShutdownHooks, data-center stop, preShutdown, shutdownCluster, shutdownRemoting, tree.deleteNode, eventsStream.Close, reset, dispatcher.signalStop; multierr.Combine/AppendInto -> first error): "
+        "which optional system actors exist is symbolic, which step fails is a case split. Asserted: the shutting-down flag is set before any step; passivation manager and scheduler stop before the user guardian; "
+        "user guardian before dead letter / death watch / grains / system guardian / root; grains after the user guardian and before the system guardian; every step at most once; without a guardian failure the whole "
+        "documented order; cluster then remoting shut down exactly once on every path (also after a user-guardian error); reset and signalStop last; Stop reports an error iff a step failed. "
+        "vC17_treeTwoStops / vC17_treeChildStop (Mode C): real PID.Shutdown, doStop, freeChildren, reset, state-flag helpers, internal/chain on a subtree n0>{n1>n3,n2} (size = case split) under solver-chosen "
+        "interleavings of two stoppers (same actor twice; top + child): PostStop at most once per actor, exactly once and nobody running when all stops returned, a parent's PostStop only after its children's completed, "
+        "no PostStop after the top stop returned. Substituted there: tree.children/node/removeDescendant and PID.UnWatch/freeWatchees/freeWatchers by the harness's static topology / no-ops (the tree operations under a stop are "
+        "C09's subject), errgroup by sequential execution, Tell by a counter. vC17_treeFailing (sequential, real tree): one actor's PostStop fails (symbolic which). "
+        "vC17_grains (Mode C): real actorSystem.poisonAllGrains, grainPID.receive/runTurn/finishOrReclaim/dispatchOne/handlePoisonPill/handlePassivationPill/deactivate/enqueuePassivationPill, grainMailbox, "
+        "GrainContext.NoErr, xsync.Map with a queued passivation pill and/or an in-flight message, one worker per grain (2 turns): OnDeactivate at most once, never overlapping OnReceive, none after the teardown returned, "
+        "exactly once per grain and empty registry when it returned. vC17_grainLateSend (Mode C): real TellGrain gate, ensureGrainProcess, singleflight, ensureExistingGrainProcess, finalizeGrainActivation against "
+        "shuttingDown.Store(true); poisonAllGrains (the two steps of shutdown, in its order). Substituted for grains: dispatcher.schedule/worker.reschedule -> per-grain token channel, grainPID.recovery -> no-op, "
+        "(late send) grainPID.activate -> ghost that sets activated, localSend -> ensureGrainProcess + receive, GrainIdentity.Validate -> nil."),
+    "bounds": {
+        "quick": {"gate": "11 message types x 2 x 2 x 3 pre-states", "afterStop": "0..2 messages queued before the stop", "sequence": "16 failing-step cases x 8 optional-actor subsets",
+                  "tree (Mode C)": "2 actors (parent, child), 2 stopper threads, 3 rounds", "treeFailing": "3 actors", "grains": "1 grain, {passivation pill | message in flight}, 2-3 threads, 3 rounds, throughput 2",
+                  "grainLateSend": "1 grain (active | inactive), 3 threads, 3 rounds"},
+        "thorough": {"tree (Mode C)": "2, 3 and 4 actors (n0>{n1>n3,n2}), 4 rounds", "treeFailing": "2..4 actors", "grains": "1-2 grains x {pill, message, both}", "rest": "as quick"},
+        "shrunk constants": "contextPoolSize 8192 -> 2, grainContextCh capacity 512 -> 2",
+    },
+    "assumptions": [
+        "children of one parent are stopped one after the other (errgroup replaced by sequential execution); Wait joining them is trusted",
+        "Mode C tree entries use a static topology instead of the real tree (C09 checks the real tree operations of a stop sequentially); no spawn races the stop (C11)",
+        "contexts are never cancelled (shutdown timeout does not expire): with an expired deadline poisonAllGrains gives up by design and some OnDeactivate hooks do not run",
+        "the passivation manager goroutine is stopped before the teardown (asserted by vC17_sequence: passivationManager.Stop precedes the user guardian), so only an already queued passivation pill can meet the PoisonPill",
+        "handler/PostStop overlap of an in-flight turn with an external Shutdown is C06-1..3, OnReceive after OnDeactivate within one turn is C31-1: not asserted again here",
+        "PostStop / OnDeactivate hooks do not fail except where an entry makes the failure symbolic (vC17_treeFailing, vC17_sequence)",
+        "map iteration order = insertion order",
+    ],
 }
